@@ -915,16 +915,22 @@ def set_schema(expression: exp.Expression, current_database: str | None) -> exp.
             expression, otherwise expression is returned as-is.
     """
 
-    if (
-        isinstance(expression, exp.Use)
-        and (kind := expression.args.get("kind"))
-        and isinstance(kind, exp.Var)
-        and kind.name
-        and kind.name.upper() in ["SCHEMA", "DATABASE"]
-    ):
+    if not isinstance(expression, exp.Use):
+        return expression
+
+    kind = expression.args.get("kind")
+    if isinstance(kind, exp.Var) and kind.name:
+        kind_name = kind.name.upper()
+    elif kind is None and isinstance(expression.this, exp.Table):
+        # the keyword is optional in Snowflake: USE <db> is USE DATABASE <db>, USE <db>.<schema> is USE SCHEMA <db>.<schema>
+        kind_name = "SCHEMA" if expression.this.args.get("db") else "DATABASE"
+    else:
+        kind_name = None
+
+    if kind_name in ["SCHEMA", "DATABASE"]:
         assert expression.this, f"No identifier for USE expression {expression}"
 
-        if kind.name.upper() == "DATABASE":
+        if kind_name == "DATABASE":
             # duckdb's default schema is main
             database = expression.this.name
             return exp.Command(
